@@ -14,7 +14,7 @@ LEVEL = "exploration"
 RULE = (
     "Hypothesis generates exposures of 1..5 steps (start time != 0 allowed) over pipelines of writer probes - one per "
     "group, each with a per-step plan (value or 'not written') and dtype for photon (2-D f16/32/64 or 3-D with 2-3 "
-    "wavelengths), charge (array or clusters), pixel, signal (f16/32/64), image (uint8..uint64, values up to the dtype "
+    "wavelengths, a third of the cubes carrying 'y' / 'x' positions of their own), charge (array or clusters), pixel, signal (f16/32/64), image (uint8..uint64, values up to the dtype "
     "maximum, <= 2^53), scene and processed-data nodes; a snapshot probe runs last in every step and every writer "
     "snapshots the buckets before and after itself. The case is run with debug off in both result layouts and with debug "
     "on; every slice, label, dtype, scene/data node and debug record is compared with the snapshots. Non-trivial: >=2 "
@@ -76,6 +76,7 @@ def cases(draw, big_uint64=False):
         plan[b] = {"dtype": dt, "values": vals}
         if b == "photon3d":
             plan[b]["nw"] = draw(st.integers(2, 3))
+            plan[b]["own_xy"] = draw(st.sampled_from([False, False, True]))
     return {
         "det_type": draw(st.sampled_from(["CCD", "CMOS", "MKID", "APD"])),
         "shape": [draw(st.integers(1, 4)), draw(st.integers(1, 4))],
